@@ -301,8 +301,9 @@ Print Assumptions decimal_row_exact_or_error.
    MAX_SCALE): documented result precision/scale (computed in the source with saturating u8/i8
    arithmetic), Overflow when a rescaling power of ten does not fit, row-wise exact-or-error
    results with nulls and scalars, InvalidArgument when the documented type is not a valid decimal
-   type.  For rem the source computes the multipliers with pow_wrapping: the statement needs them
-   to be representable (see the KNOWN-FINDING candidate) and excludes MIN as a rescaled dividend. *)
+   type.  For rem an unrepresentable multiplier is reported as Overflow by model and spec alike
+   (finding F17, fixed in /repo 9e1df4d: the source used pow_wrapping there); the statement only
+   excludes MIN as a rescaled dividend (mod_checked reports MIN % -1 as Overflow). *)
 Theorem decimal_kernel_exact : forall (H : Z), 2 <= H -> forall (m : Z), 1 <= m <= 76 ->
   forall (op : dop) (l_s r_s : bool) (p1 s1 p2 s2 : Z) (l r : parr),
   1 <= p1 <= m -> 1 <= p2 <= m -> - 40 <= s1 <= p1 -> - 40 <= s2 <= p2 ->
@@ -312,9 +313,7 @@ Theorem decimal_kernel_exact : forall (H : Z), 2 <= H -> forall (m : Z), 1 <= m 
   (l_s = true -> length (a_vals l) = 1%nat) -> (r_s = true -> length (a_vals r) = 1%nat) ->
   Forall (fun x => in_range true H x = true) (a_vals l) ->
   Forall (fun x => in_range true H x = true) (a_vals r) ->
-  (op = DRem ->
-     in_range true H (10 ^ (Z.max s1 s2 - s1)) = true /\ in_range true H (10 ^ (Z.max s1 s2 - s2)) = true /\
-     Forall (fun x => x * 10 ^ (Z.max s1 s2 - s1) <> - H) (a_vals l)) ->
+  (op = DRem -> Forall (fun x => x * 10 ^ (Z.max s1 s2 - s1) <> - H) (a_vals l)) ->
   (match decimal_op H m m op l_s r_s p1 s1 p2 s2 l r with
    | DOk v n p s => inl (denote (mkarr v n), (p, s))
    | DErr k => inr k
